@@ -205,6 +205,16 @@ def envelope_tables():
     one(r"let \(_, text\) = text_parser\(input\)\.finish\(\)\?;", parser, "parse_text_token finish")
     text_token_panics = (tt == "tokens::string_literal")
 
+    task = src("runtime/swimos_remote/src/task/mod.rs")
+    ub = one(r"let unlinked_body = if body\.is_empty\(\) \{ (Some\(\*body\)|None) \} else \{ (Some\(\*body\)|None) \};", task,
+             "interpret_envelope unlinked body")
+    if ub == ("Some(*body)", "None"):
+        unlinked_body_dropped = True     # keeps the body only when it is empty
+    elif ub == ("None", "Some(*body)"):
+        unlinked_body_dropped = False
+    else:
+        raise ExtractError("interpret_envelope: unrecognised unlinked body expression")
+
     def dc(name, s):
         return f"def {name} : List Char := {lean_chars(s)}\n"
 
@@ -224,6 +234,8 @@ def envelope_tables():
             f"def unescSurrogatePanics : Bool := {'true' if surrogate_panics else 'false'}\n")
     out += ("/-- `parse_text_token`: an `Incomplete` from the streaming string-literal parser reaches `finish()`, which panics -/\n"
             f"def textTokenIncompletePanics : Bool := {'true' if text_token_panics else 'false'}\n")
+    out += ("/-- `interpret_envelope`: the body of an incoming `unlinked` envelope is kept only when it is empty -/\n"
+            f"def unlinkedBodyDropped : Bool := {'true' if unlinked_body_dropped else 'false'}\n")
     for k, v in w_headers:
         out += dc("wHeader_" + k, v)
     out += dc("wNodeTag", node_tag) + dc("wLaneTag", lane_tag) + dc("nodeNotFoundTag", nnf)
